@@ -131,7 +131,7 @@ inductive Op (V : Type) where
   /-- the awaiting task gave up (timeout / cancellation): the future is cancelled from outside,
       its entry stays in `_requests` -/
   | extCancel (t : Nat)
-  deriving Repr
+  deriving DecidableEq, Repr
 
 inductive Obs where
   /-- a send returned: ids drawn, ticket of the future (none: `event is None`) -/
@@ -162,15 +162,20 @@ def matchBatch (ids : List Id) : Key × Nat → Bool
   | (.batch ns, _) => tupleEq ids ns
   | _ => false
 
+/-- `not future.done()` for the future with ticket `t` -/
+def isPending {V : Type} (futs : List (Fut V)) (t : Nat) : Bool :=
+  match futs[t]? with
+  | some .pending => true
+  | _ => false
+
 /-- pop the first entry satisfying `p` and complete its future if it is still pending -/
 def complete {V : Type} (c : Conn V) (p : Key × Nat → Bool) (f : Fut V) : Conn V × Obs :=
   match c.out.find? p with
   | none => (c, .raised .protocolError)
   | some e =>
       let out' := c.out.eraseP p
-      match c.futs[e.2]? with
-      | some .pending => ({ c with out := out', futs := c.futs.set e.2 f }, .done [e.2])
-      | _ => ({ c with out := out' }, .done [])
+      if isPending c.futs e.2 then ({ c with out := out', futs := c.futs.set e.2 f }, .done [e.2])
+      else ({ c with out := out' }, .done [])
 
 /-- `_receive_response(result, request_id)` -/
 def recvResponse {V : Type} (vr : Variant) (c : Conn V) (i : Id) (b : Body V) : Conn V × Obs :=
@@ -215,11 +220,6 @@ def cancelFut {V : Type} : Fut V → Fut V
 def cancelTickets {V : Type} (futs : List (Fut V)) : List Nat → List (Fut V)
   | [] => futs
   | t :: ts => cancelTickets (futs.modify t cancelFut) ts
-
-def isPending {V : Type} (futs : List (Fut V)) (t : Nat) : Bool :=
-  match futs[t]? with
-  | some .pending => true
-  | _ => false
 
 /-- one operation on the connection.  `k` = step of the id counter (facts). -/
 def step {V : Type} (vr : Variant) (k : Nat) (c : Conn V) : Op V → Conn V × Obs
